@@ -19,10 +19,10 @@ phase layout, any package table.  No well-formedness hypothesis is needed for th
 because rows are read pointwise (`Row.get`); the two theorems that need "no chemical listed twice
 in a package" say so (`PkgsNodup`, `Nodup`).
 
-The model describes the code with fixes_proposed/C01-1 … C01-8 (and C10-2, C12's phase-view fix) applied.
-Three combinations that the code rejects are mirrored and recorded as known findings
-(`*_rejected` below); `split_progress_counterexample` shows that the value theorem of splitting
-cannot be strengthened to "always returns".
+The model describes the code with fixes_proposed/C01-1 … C01-14 (and C10-2, C12-1) applied: the six
+combinations that were first mirrored as known findings (single-phase feed onto a multi-phase outlet, two
+argument forms of `Stream.copy_flow`, three defects of `MultiStream.copy_flow`) are modelled as repaired,
+and their theorems are the full ones.
 -/
 namespace ThermoVerif.Props.C01
 open ThermoVerif.Flow ThermoVerif.FlowOps
@@ -140,64 +140,42 @@ theorem div_linear {w w' : World} {i : Nat} {k : Rat} (h : divNew w i k = .ok w'
     w'.amount w.strms.length c = w.amount i c / k ∧ w'.amount i c = w.amount i c :=
   FlowOps.div_linear h c
 
-/-! ### combinations the code rejects (mirrored in the model; known findings) -/
+/-! ### copy onto a multi-phase destination (`MultiStream.copy_flow`) -/
 
-/-- `Stream.split_to(energy_balance=False)` of a single-phase feed onto a multi-phase outlet of the
-same package is rejected by the code (`s.mol[:] = values` on the read-only phase sum) -/
-theorem split_single_feed_multi_outlet_rejected {w : World} {f a b : Nat} {sp : Split} {sf sa sb : Strm}
-    (hf : w.strms[f]? = some sf) (ha : w.strms[a]? = some sa) (hb : w.strms[b]? = some sb)
-    (hfs : sf.multi = false) (ham : sa.multi = true) (hpk : sa.pkg = sf.pkg) :
-    split w f a b sp = .error .rejected :=
-  FlowOps.split_single_feed_multi_outlet_rejected hf ha hb hfs ham hpk
-
-/-- `copy_flow(other, IDs, exclude=True)` when no ID is a chemical of the source is rejected (`slice()`) -/
-theorem copy_exclude_nothing_rejected {w : World} {d s : Nat} {cs : List Nat} {rm : Bool} {sd ss : Strm}
-    (hd : w.strms[d]? = some sd) (hs : w.strms[s]? = some ss)
-    (hcs : ∀ c ∈ cs, c ∉ w.pkgOf ss) : copySingle w d s (.many cs) rm true = .error .rejected :=
-  FlowOps.copy_exclude_nothing_rejected hd hs hcs
-
-/-- `copy_flow(other, 'ID')` with a string ID between different packages is rejected (an `int` is iterated) -/
-theorem copy_str_other_package_rejected {w : World} {d s c k : Nat} {rm : Bool} {sd ss : Strm}
-    (hd : w.strms[d]? = some sd) (hs : w.strms[s]? = some ss) (hpk : sd.pkg ≠ ss.pkg)
-    (hc : pos (w.pkgOf ss) c = some k) : copySingle w d s (.one c) rm false = .error .rejected :=
-  FlowOps.copy_str_other_package_rejected hd hs hpk hc
-
-/-! ### copy onto a multi-phase destination (`MultiStream.copy_flow`), mirrored as it is -/
-
-/-- **Cut and paste between multi-phase streams with as many phases** (`IDs = ...`, `phase = ...`,
-`remove=True`): every chemical is moved, whatever the phase names (rows are paired by position). -/
-theorem copy_multi_all_partial {w w' : World} {d s : Nat} {sd ss : Strm}
+/-- **Cut and paste onto a multi-phase destination** (`phase = ...`, `IDs = ...`, `remove=True`), single- or
+multi-phase source, whatever the destination held: every chemical is moved. -/
+theorem copy_multi_all_moves {w w' : World} {d s : Nat} {sd ss : Strm}
     (h : copyMulti w d s none .all true false = .ok w') (hds : d ≠ s)
-    (hd : w.strms[d]? = some sd) (hs : w.strms[s]? = some ss)
-    (hm : ss.multi = true) (hlen : sd.ph.length = ss.ph.length) (c : Nat) :
+    (hd : w.strms[d]? = some sd) (hs : w.strms[s]? = some ss) (c : Nat) :
     w'.amount d c = w.amount s c ∧ w'.amount s c = 0 :=
-  FlowOps.copy_multi_all_partial h hds hd hs hm hlen c
+  FlowOps.copy_multi_all_moves h hds hd hs c
 
-/-- the full statement (no hypothesis on the number of phases) — false for the code as it is -/
-def copy_multi_all_statement : Prop :=
-  ∀ (w w' : World) (d s : Nat), copyMulti w d s none .all true false = .ok w' → d ≠ s →
-    ∀ c, w'.amount d c = w.amount s c ∧ w'.amount s c = 0
+/-- **Copy with removal onto an empty multi-phase destination conserves every chemical**, for every form
+of the phase / IDs / exclude arguments and for single- and multi-phase sources: what left the source is
+in the destination. -/
+theorem copy_multi_conserves {w w' : World} {d s : Nat} {phase : Option Char} {ids : IDs} {ex : Bool}
+    {sd ss : Strm} (h : copyMulti w d s phase ids true ex = .ok w') (hds : d ≠ s)
+    (hd : w.strms[d]? = some sd) (hs : w.strms[s]? = some ss) (he : sd.isEmpty = true) (c : Nat) :
+    w'.amount d c + w'.amount s c = w.amount s c :=
+  FlowOps.copy_multi_conserves h hds hd hs he c
 
-/-- destination `(g, l)`, source `(g, l, s)` holding 5 of chemical 1 as a solid -/
+/-- … and with all phases selected (`phase = ...`) every chemical is either moved entirely or stays
+entirely in the source (the counterpart of `copy_remove_moves` for multi-phase destinations). -/
+theorem copy_multi_remove_moves {w w' : World} {d s : Nat} {ids : IDs} {ex : Bool}
+    {sd ss : Strm} (h : copyMulti w d s none ids true ex = .ok w') (hds : d ≠ s)
+    (hd : w.strms[d]? = some sd) (hs : w.strms[s]? = some ss) (he : sd.isEmpty = true) (c : Nat) :
+    (w'.amount d c = w.amount s c ∧ w'.amount s c = 0) ∨
+    (w'.amount d c = 0 ∧ w'.amount s c = w.amount s c) :=
+  FlowOps.copy_multi_remove_moves h hds hd hs he c
+
+/-- destination `(g, l)`, a source `(g, l, s)` with another phase tuple, a single-phase gas stream, a
+source with the destination's phase tuple -/
 def wCopy : World :=
   { pkgs := [[0, 1, 2]],
     strms := [ { pkg := 0, multi := true, ph := [('g', [0, 0, 0]), ('l', [0, 0, 0])] },
                { pkg := 0, multi := true, ph := [('g', [0, 0, 0]), ('l', [0, 0, 0]), ('s', [0, 5, 0])] },
                { pkg := 0, multi := false, ph := [('g', [1, 2, 3])] },
-               { pkg := 0, multi := true, ph := [('L', [4, 0, 0]), ('s', [0, 0, 1/2])] } ] }
-
-/-- known finding: a source with more phases than the destination loses its last rows
-(`zip(rows, value)` stops at the shorter side, the removal zeroes every row) -/
-theorem copy_multi_all_counterexample : ¬ copy_multi_all_statement := by
-  intro h
-  have hok : ∃ w', copyMulti wCopy 0 1 none .all true false = .ok w' ∧ w'.amount 0 1 = 0 := by
-    refine ⟨_, rfl, ?_⟩
-    decide +kernel
-  obtain ⟨w', hw', h0⟩ := hok
-  have := (h wCopy w' 0 1 hw' (by decide) 1).1
-  rw [h0] at this
-  revert this
-  decide +kernel
+               { pkg := 0, multi := true, ph := [('g', [4, 0, 0]), ('l', [0, 0, 1/2])] } ] }
 
 /-! ### non-vacuity: a concrete world on which every hypothesis is met with non-trivial numbers -/
 
@@ -249,33 +227,24 @@ example : okAmount (copySingle w0 3 1 (.many [0]) true false) 1 0 = some 0 := by
 example : okAmount (copySingle w0 3 1 (.many [0]) true false) 1 2 = some 4 := by decide +kernel
 example : okAmount (scale w0 2 (3/2)) 2 0 = some (9/4) := by decide +kernel
 
--- cut and paste between multi-phase streams with equally many phases
+-- a single-phase feed onto a multi-phase outlet (C01-9): the outlet becomes single-phase at the feed's phase
+example : okAmount (split w0 4 0 3 (.scalar (1/4))) 0 0 = some 2 ∧
+          okAmount (split w0 4 0 3 (.scalar (1/4))) 3 0 = some 6 := by decide +kernel
+-- `exclude=True` with IDs the source does not have copies everything (C01-10); a string ID across packages (C01-11)
+example : okAmount (copySingle w0 3 1 (.many [1]) true true) 3 2 = some 4 ∧
+          okAmount (copySingle w0 3 1 (.many [1]) true true) 1 2 = some 0 := by decide +kernel
+example : okAmount (copySingle w0 3 1 (.one 0) true false) 3 0 = some 2 ∧
+          okAmount (copySingle w0 3 1 (.one 0) true false) 1 0 = some 0 := by decide +kernel
+-- cut and paste between multi-phase streams with the same phase tuple
 example : okAmount (copyMulti wCopy 0 3 none .all true false) 0 0 = some 4 ∧
           okAmount (copyMulti wCopy 0 3 none .all true false) 3 0 = some 0 := by decide +kernel
--- known findings of `MultiStream.copy_flow`, mirrored:
--- `exclude=True` with a phase other than the single-phase source's: copied but not removed (duplicated)
-example : okAmount (copyMulti wCopy 0 2 (some 'l') (.many [1]) true true) 0 0 = some 1 ∧
-          okAmount (copyMulti wCopy 0 2 (some 'l') (.many [1]) true true) 2 0 = some 1 := by decide +kernel
--- `IDs = ..., exclude=True, remove=True`: the source is emptied, nothing is copied
+-- another phase tuple is refused (C01-12), nothing is lost
+example : errOf (copyMulti wCopy 0 1 none .all true false) = some .rejected := by decide +kernel
+-- `exclude=True` with a phase other than the single-phase source's: everything moves (C01-13)
+example : okAmount (copyMulti wCopy 0 2 (some 'l') (.many [1]) true true) 0 1 = some 2 ∧
+          okAmount (copyMulti wCopy 0 2 (some 'l') (.many [1]) true true) 2 1 = some 0 := by decide +kernel
+-- `IDs = ..., exclude=True, remove=True`: nothing is copied and nothing is removed (C01-14)
 example : okAmount (copyMulti wCopy 0 2 none .all true true) 0 0 = some 0 ∧
-          okAmount (copyMulti wCopy 0 2 none .all true true) 2 0 = some 0 := by decide +kernel
-
-/-! ### the progress statement that fails (known finding) -/
-
-/-- "`split_to` returns whenever the outlets' packages know every chemical of the feed's package" —
-false for the code as it is with `energy_balance=False` -/
-def split_progress_statement : Prop :=
-  ∀ (w : World) (f a b : Nat) (sp : Split) (sf sa sb : Strm),
-    w.strms[f]? = some sf → w.strms[a]? = some sa → w.strms[b]? = some sb → a ≠ b →
-    (∀ c ∈ w.pkgOf sf, c ∈ w.pkgOf sa ∧ c ∈ w.pkgOf sb) →
-    ∃ w', split w f a b sp = .ok w'
-
-theorem split_progress_counterexample : ¬ split_progress_statement := by
-  intro h
-  obtain ⟨w', hw'⟩ := h w0 4 0 3 (.scalar (1/4)) _ _ _ rfl rfl rfl (by decide) (by decide)
-  have : split w0 4 0 3 (.scalar (1/4)) = .error .rejected :=
-    split_single_feed_multi_outlet_rejected (w := w0) rfl rfl rfl rfl rfl rfl
-  rw [this] at hw'
-  cases hw'
+          okAmount (copyMulti wCopy 0 2 none .all true true) 2 0 = some 1 := by decide +kernel
 
 end ThermoVerif.Props.C01
